@@ -297,6 +297,8 @@ package parser
 //@   requires tokready(l)
 //@   site ISNAME = call parser.(*lexer).isName
 //@   assert[C03] at call parser.(*lexer).emit#2: a-loop-variable-is-a-name: arg1 == NAME && site(ISNAME) && siteret(ISNAME)
+//@   site WPOS = call ast.(Word).Pos
+//@   assert[C03] at call parser.(*lexer).error: error-at-the-start-of-the-offending-word: site(WPOS) && arg1 == siteret(WPOS)
 //@   site SKIP1 = call parser.(*lexer).linebreak#1
 //@   site SKIP2 = call parser.(*lexer).linebreak#2
 //@   site SKIP3 = call parser.(*lexer).linebreak#3
@@ -383,11 +385,11 @@ package parser
 //@ func (*lexer).subst
 //@   ensures !result ==> l.word == old(l.word)
 //@   ensures result ==> len(l.word) == 0
-//@   loop "for _, a := range l.aliases" invariant[C17] not-on-the-stack-so-far: forall j: 0 <= j && j <= rangeindex ==> l.aliases[j].name != w.Value
+//@   loop "for _, a := range l.aliases" invariant[C01 C17] not-on-the-stack-so-far: forall j: 0 <= j && j <= rangeindex ==> l.aliases[j].name != w.Value
 //@   ensures[C17] only-an-unquoted-alias-name: result ==> old(len(l.word)) == 1 && old(l.word[0]) is *ast.Lit && l.env != nil && has(l.env.Aliases, old(l.word[0].(*ast.Lit).Value))
-//@   ensures[C17] one-pushed: result ==> len(l.aliases) == old(len(l.aliases)) + 1
+//@   ensures[C01 C17] one-pushed: result ==> len(l.aliases) == old(len(l.aliases)) + 1
 //@   ensures[C17] rest-of-the-stack-kept: result ==> (forall j: 0 <= j && j < old(len(l.aliases)) ==> l.aliases[j] == old(l.aliases[j]))
-//@   ensures[C17] never-inside-its-own-expansion: result ==> (forall j: 0 <= j && j < old(len(l.aliases)) ==> old(l.aliases[j].name) != old(l.word[0].(*ast.Lit).Value))
+//@   ensures[C01 C17] never-inside-its-own-expansion: result ==> (forall j: 0 <= j && j < old(len(l.aliases)) ==> old(l.aliases[j].name) != old(l.word[0].(*ast.Lit).Value))
 //@   ensures[C17] pushed-is-the-alias: result ==> l.aliases[len(l.aliases)-1].name == old(l.word[0].(*ast.Lit).Value) && rpos(l.aliases[len(l.aliases)-1].value) == 0
 //@   ensures[C17] value-not-longer: result ==> len(rsrc(l.aliases[len(l.aliases)-1].value)) >= 1 && len(rsrc(l.aliases[len(l.aliases)-1].value)) <= len(l.env.Aliases[l.aliases[len(l.aliases)-1].name]) + 1
 //@   ensures[C17] value-ends-in-one-blank: result ==> rsrc(l.aliases[len(l.aliases)-1].value)[len(rsrc(l.aliases[len(l.aliases)-1].value))-1] == ' '
